@@ -535,6 +535,15 @@ func (m *ReconcilePod) createENI(ctx context.Context, allocs *[]*v1beta1.Allocat
 		done <- struct{}{}
 	}()
 
+	// the record of a pod with a fixed ip is kept as a whole, so none of its enis may be
+	// deleted by ecs together with the instance
+	haveFixedIP := false
+	for _, alloc := range *allocs {
+		if alloc.AllocationType.Type == v1beta1.IPAllocTypeFixed {
+			haveFixedIP = true
+		}
+	}
+
 	g, _ := errgroup.WithContext(context.Background())
 	for i := range *allocs {
 		ii := i
@@ -542,10 +551,7 @@ func (m *ReconcilePod) createENI(ctx context.Context, allocs *[]*v1beta1.Allocat
 			alloc := (*allocs)[ii]
 			ctx := common.WithCtx(ctx, alloc)
 
-			deleteENIOnECSRelease := true
-			if alloc.AllocationType.Type == v1beta1.IPAllocTypeFixed {
-				deleteENIOnECSRelease = false
-			}
+			deleteENIOnECSRelease := !haveFixedIP
 			bo := backoff.Backoff(backoff.ENICreate)
 			option := &aliyunClient.CreateNetworkInterfaceOptions{
 				NetworkInterfaceOptions: &aliyunClient.NetworkInterfaceOptions{
